@@ -6,7 +6,7 @@ import (
 
 )
 
-//verif:override math.Pow vPowBounded
+//verif:override pow math.Pow vPowBounded
 // math.Pow(x, 0.33) is an uninterpreted function under the engine, constrained by a bracketing
 // contract computed from the real math.Pow at the (constant) points where round(n^0.33)
 // changes: for integer-valued x in [0, 29000], x >= n_k => r >= Pow(n_k) and
@@ -50,7 +50,7 @@ func vNextValidationUnix(zoneOffsetSec int, stored int64, networkSize int, up12 
 	return cfg.GetNextValidationTime(validationTime, networkSize, up12).Unix()
 }
 
-//verif:obligation C01.e tier=quick bounds=unix-time-in-[0,2^33),network-size-in-[0,29000],zone-offsets-multiples-of-15min-in-[-12h,+14h] covers=up12,legacy
+//verif:obligation C01.e tier=quick use=pow bounds=unix-time-in-[0,2^33),network-size-in-[0,29000],zone-offsets-multiples-of-15min-in-[-12h,+14h] covers=up12,legacy
 // Self-composition over the host time zone: Global.NextValidationTime computed by the real
 // GetNextValidationTime/NormalizedEpochDuration (time package executed from std source,
 // math.Pow as an uninterpreted function) must be identical on two hosts whose local zones
